@@ -815,7 +815,7 @@ def m_default(ctx):
 
 
 # ---------------------------------------------------------------- eyre / error plumbing / formatting
-@model(r'WrapErr<.*>>::(wrap_err|wrap_err_with|context|with_context)$|eyre::(WrapErr|ContextCompat|OptionExt)|::wrap_err(_with)?$')
+@model(r'anyhow::Context<.*>>::(context|with_context)$|WrapErr<.*>>::(wrap_err|wrap_err_with|context|with_context)$|eyre::(WrapErr|ContextCompat|OptionExt)|::wrap_err(_with)?$')
 def m_wrap_err(ctx):
     ex, st = ctx.ex, ctx.st
     o = ex.deref_val(st, ctx.args[0])
@@ -924,6 +924,21 @@ def m_vec(ctx):
         return alts
     if op in ('to_vec', 'to_owned', 'into_vec'):
         return [(None, new_vec('Vec', [ex.copy_val(x) for x in items]))]
+    if op == 'extend_from_slice' and 'bytes_per_item' in v.attrs:
+        src = ex.deref_val(st, ctx.args[1]); per = v.attrs['bytes_per_item']
+        if z3.is_bv(src):
+            if src.size() % (8 * per) != 0:
+                raise MirError('extend_from_slice: not a whole number of atoms')
+            if z3.is_bv_value(z3.simplify(src)) and z3.simplify(src).as_long() == 0:
+                items.extend(v.attrs['zero_atom'] for _ in range(src.size() // (8 * per)))
+                return [(None, ())]
+            raise MirError('extend_from_slice of non-zero bytes into an atom rope')
+        if z3.is_expr(src):
+            items.append(src); return [(None, ())]
+        raise MirError(f'extend_from_slice of {src!r} into an atom rope')
+    if op == 'extend_from_slice' and z3.is_expr(ex.deref_val(st, ctx.args[1])) and not z3.is_bv(ex.deref_val(st, ctx.args[1])):
+        items.append(ex.deref_val(st, ctx.args[1])); v.attrs.setdefault('bytes_per_item', 32)     # an atom (e.g. a hash term) appended to a byte rope
+        return [(None, ())]
     if op == 'extend_from_slice' or op == 'append':
         src = shaped(ex, st, ctx.args[1])
         items.extend(ex.copy_val(x) for x in src.attrs['items'])
